@@ -58,19 +58,19 @@ EXTRA = {
     'C05': 'the start-up replay writes no membership / address',
     'C06': 'the snapshot install future is serialised with the applies that follow; the replay skips no entry after a compaction',
     'C07': 'the live MCP key index is maintained like the rebuilt one; apply handlers draw from no random source (crate-wide closure); a tmp entry is compared with the applied content; a follower batch is judged against the messages state actors send each other (known finding R07n)',
-    'C08': 'a namespace record of an installed snapshot replaces the stored entry (constant-flag propagation into set_namespace); the split-off bound of an installation is constant; a snapshot id is handed out once (known finding R08q); namespace records precede config records',
+    'C08': 'a namespace record of an installed snapshot replaces the stored entry (constant-flag propagation into set_namespace); the split-off bound of an installation is constant; a snapshot id is handed out once (known finding R08q); namespace records precede config records; a snapshot file is read to its end (is_end only by literal)',
     'C09': 'page arithmetic on request values is total (no checked +,-,* and no unguarded division on page number / size), every write entry point checks that the key survives its stored form, set_tmp_config never replaces an entry; applied entry fields reach set_config unchanged; the decoder hands the whole history on',
-    'C10': 'the listener notify loop has no early exit',
+    'C10': 'the listener notify loop has no early exit; an empty word of the listener string is a word',
     'C11': 'every non-ephemeral removal clears the persistent set',
-    'C12': 'stored flags are kept only for the same owner; a client-requested removal of a copy held for another node is announced; the protect threshold is decided over the answered list',
+    'C12': 'stored flags are kept only for the same owner; a client-requested removal of a copy held for another node is announced; the protect threshold is decided over the answered list; a late probe result does not flip an ephemeral instance (borrowed)',
     'C13': 'a queued change always supersedes the queued heartbeat copy of the same instance; the own-copy skip of receive_snapshot ignores time stamps; a heartbeat is addressed to the group its parameter names; an in-range HTTP instance is claimed whether it arrives from a client or from a sync',
     'C14': 'the cached owner range is kept only when it equals the freshly computed one; a write for a remote owner is never applied locally; without an assigned range nothing is claimed',
     'C15': "a snapshot query is answered with the asking node's range too; retry pause below flush period (sibling constants); sync requests to one peer are serialised; no float field of a sync payload is decoded by the derived decoder; the anti-entropy round compares sets",
     'C16': 'a token is valid only behind a deadline check at read time',
     'C17': 'grants reach the matcher as written and the request path / method as sent; a session is valid only behind a deadline check at read time',
     'C18': 'the decoder of the stored user record always hands both namespace lists on; the privilege group crosses JSON without loss (derive output)',
-    'C19': 'every id answered by the sequence manager is a draw from the key buffer',
-    'C20': 'the carry-to-front helper moves every unread byte (interpretation over all (len, start) up to 7 with slice / iterator models)',
+    'C19': 'every id answered by the sequence manager is a draw from the key buffer; an overtaken reservation is dropped',
+    'C20': 'the carry-to-front helper moves every unread byte (interpretation over all (len, start) up to 7 with slice / iterator models); read_buf into a capacity-sized buffer counts as a single read',
 }
 
 NOT_YET = {}
